@@ -153,15 +153,26 @@ def lindblad_form(ctx) -> None:
            "noise term = −(i/2) Σ L†L" if okc else f"compute_noise_from_lindbladians returns {s[:80]}")
 
 
-def _loop_over_all_qubits(node: ast.AST, allowed: tuple) -> bool:
-    """`for q in range(len(self.omegas))` / `range(self.nqubits)` / `enumerate(self.omegas)`: every qubit, no filter."""
+def _loop_over_all_qubits(node: ast.AST, allowed: tuple, func=None) -> bool:
+    """`for q in range(len(self.omegas))` / `range(self.nqubits)` / `enumerate(<per-qubit vector>)`: every qubit, no
+    filter.  A local iterated by name is replaced by its (single) defining expression first."""
     if not isinstance(node, (ast.For, ast.comprehension)):
         return False
-    s = util.text(node.iter).replace(" ", "")
-    return s in allowed
+    it = util.inline_locals(func, node.iter) if func is not None else node.iter
+    s = util.text(it).replace(" ", "")
+    if s in allowed:
+        return True
+    # enumerate(E): E an element-wise expression of the per-qubit drive vectors (no slicing, no indexing)
+    if isinstance(it, ast.Call) and util.text(it.func) == "enumerate" and len(it.args) == 1 and not it.keywords:
+        e = it.args[0]
+        if any(isinstance(n, (ast.Subscript, ast.Slice)) for n in ast.walk(e)):
+            return False
+        attrs = {util.text(n) for n in ast.walk(e) if isinstance(n, ast.Attribute) and isinstance(n.value, ast.Name) and n.value.id == "self"}
+        return "self.omegas" in attrs and attrs <= {"self.omegas", "self.phis", "self.deltas"}
+    return False
 
 
-ALL_QUBITS = ("range(len(self.omegas))", "range(self.nqubits)", "enumerate(self.omegas)", "enumerate(c_omegas)",
+ALL_QUBITS = ("range(len(self.omegas))", "range(self.nqubits)", "enumerate(self.omegas)",
               "range(len(self.deltas))", "range(0,self.nqubits)")
 
 
@@ -172,12 +183,12 @@ def lindbladian_structure(ctx) -> None:
     C = prog.cls("emu_sv.lindblad_operator.RydbergLindbladian")
     h = C.methods["h_eff"]
     loops = [n for n in util.walk_own(h.node) if isinstance(n, ast.For)]
-    ok = len(loops) == 1 and _loop_over_all_qubits(loops[0], ALL_QUBITS) and \
+    ok = len(loops) == 1 and _loop_over_all_qubits(loops[0], ALL_QUBITS, h) and \
         not any(isinstance(n, (ast.If, ast.Continue, ast.Break)) for st in loops[0].body for n in ast.walk(st))
     ctx.ob("LINDBLAD-form", "h_eff covers every qubit", h.loc(loops[0]) if loops else h.loc(), ok,
            "H_eff ρ sums the local term of every qubit, unconditionally" if ok else
            f"h_eff iterates over {util.text(loops[0].iter, 60) if loops else 'no loop'}"
-           + (" with a filter" if loops and _loop_over_all_qubits(loops[0], ALL_QUBITS) else "")
+           + (" with a filter" if loops and _loop_over_all_qubits(loops[0], ALL_QUBITS, h) else "")
            + ": qubits that are skipped lose their −i/2 ΣL†L term while their L ρ L† term is still added — the "
              "generator no longer preserves the trace (e.g. an undriven atom with relaxation)")
     it = Interp(prog, C, inline=lambda c, r, d: False, loop_iters=(1,))
@@ -215,7 +226,7 @@ def lindbladian_structure(ctx) -> None:
            "the single-qubit term of the Lindbladian is not drive − δ·n + noise on both phase branches")
     mm = C.methods["__matmul__"]
     gens = [g for nn in ast.walk(mm.node) if isinstance(nn, (ast.GeneratorExp, ast.ListComp)) for g in nn.generators]
-    okg = len(gens) == 2 and _loop_over_all_qubits(gens[0], ALL_QUBITS) and util.text(gens[1].iter) == "self.pulser_lindblads" \
+    okg = len(gens) == 2 and _loop_over_all_qubits(gens[0], ALL_QUBITS, mm) and util.text(gens[1].iter) == "self.pulser_lindblads" \
         and not gens[0].ifs and not gens[1].ifs
     ctx.ob("LINDBLAD-form", "jump term covers every qubit and operator", mm.loc(), okg,
            "Σ_k L_k ρ L_k† runs over every qubit and every jump operator" if okg else
@@ -229,7 +240,7 @@ def hamiltonian_structure(ctx) -> None:
     for name in ("_apply_sigma_operators_real", "_apply_sigma_operators_complex"):
         m = C.methods[name]
         loops = [n for n in util.walk_own(m.node) if isinstance(n, ast.For)]
-        ok = len(loops) == 1 and _loop_over_all_qubits(loops[0], ALL_QUBITS) and \
+        ok = len(loops) == 1 and _loop_over_all_qubits(loops[0], ALL_QUBITS, m) and \
             not any(isinstance(n, (ast.If, ast.Continue, ast.Break)) for st in loops[0].body for n in ast.walk(st))
         ctx.ob("HAM-form", f"{name} covers every qubit", m.loc(), ok,
                "the drive term is applied for every qubit, unconditionally" if ok else
